@@ -11,6 +11,7 @@ import (
 	"os/exec"
 	"runtime"
 	"sort"
+	"strconv"
 	"strings"
 	"sync"
 	"time"
@@ -24,6 +25,7 @@ import (
 func init() {
 	register("C17", "model_checking", C17)
 	workers["c17race"] = c17RaceWorker
+	workers["c17h"] = c17ExploreWorker
 	Replayers["C17"] = func(raw []byte) string {
 		var c c17Case
 		if err := json.Unmarshal(raw, &c); err != nil {
@@ -358,6 +360,12 @@ func c17Harnesses(quick bool) []c17Harness {
 		}
 	}
 	hs = append(hs, lruHarness("lru/three-positions/max1", 1, [][]lruOp{{G(10), G(30)}, {G(20), G(10)}, {G(30)}}, -1))
+	// four threads: two of them want the same block while two others evict it; a failing fetch with two waiters behind it
+	for _, mb := range []int{1, 2} {
+		hs = append(hs, lruHarness(fmt.Sprintf("lru/four/max%d", mb), mb, [][]lruOp{{G(10)}, {G(20)}, {G(10)}, {G(30)}}, -1))
+	}
+	hs = append(hs, lruHarness("lru/four-resize/max1", 1, [][]lruOp{{G(10)}, {G(20)}, {G(10)}, {S(0)}}, -1))
+	hs = append(hs, lruHarness("lru/failing-fetch3/max1", 1, [][]lruOp{{G(10)}, {G(10)}, {G(10), G(20)}}, 10))
 	for _, cache := range []int{0, 1, 2, -1} {
 		hs = append(hs, fsHarness(fmt.Sprintf("fs/shared-fragment/cache%d", cache), cache, [][]string{{"f1"}, {"f2"}}, nil))
 		if !quick || cache == 1 {
@@ -377,37 +385,83 @@ func c17Harnesses(quick bool) []c17Harness {
 	return hs
 }
 
-func C17(r *ev.Run) {
-	bound := 2
-	if !r.Quick() {
-		bound = 3
+// c17Bound: preemption bound per harness and tier. The LRU harnesses are short (about 20 scheduling points), the filesystem
+// harnesses long (70..1200 points per execution), so the bounds differ; every harness runs to completion of its bound.
+func c17Bound(name string, quick bool) int {
+	switch {
+	case strings.HasPrefix(name, "lru/four"):
+		if quick {
+			return 2
+		}
+		return 3
+	case strings.HasPrefix(name, "lru/"):
+		if quick {
+			return 3
+		}
+		return 5
+	case strings.HasPrefix(name, "fs/two-directories"):
+		return 1 // a path lookup touches every entry of the directory: ~1000 scheduling points per execution
+	case strings.HasPrefix(name, "fs/three"):
+		if quick {
+			return 1
+		}
+		return 2
+	case strings.HasPrefix(name, "fs/resize"):
+		if quick {
+			return 2
+		}
+		return 3
+	case strings.HasPrefix(name, "fs/shared-fragment"):
+		if quick {
+			return 3
+		}
+		return 4
 	}
-	var execs, states int64
-	maxPoints := 0
-	outcomes := map[string]int64{}
-	var per []map[string]any
-	exhaustive := true
+	if quick {
+		return 2
+	}
+	return 3
+}
+
+type c17Result struct {
+	Harness    string   `json:"harness"`
+	Bound      int      `json:"preemption_bound"`
+	Executions int64    `json:"executions"`
+	Steps      int64    `json:"scheduling_steps"`
+	MaxPoints  int      `json:"max_scheduling_points"`
+	Distinct   int64    `json:"distinct_schedules"`
+	Capped     bool     `json:"capped"`
+	Desc       string   `json:"desc"`
+	Default    int      `json:"default_schedule_points"`
+	Sig        string   `json:"sig,omitempty"`
+	Msg        string   `json:"msg,omitempty"`
+	Schedule   []int    `json:"schedule,omitempty"`
+	Nondet     bool     `json:"nondeterminism,omitempty"`
+	Outcomes   []string `json:"thread_finish_orders,omitempty"`
+}
+
+// c17ExploreWorker explores ONE harness in its own process (vmc worker c17h <tier> <harness> <bound> <seconds>) and prints a
+// c17Result. One process per harness: the scheduler keeps its state in package variables, and 16 harnesses run side by side.
+func c17ExploreWorker(args []string) {
+	quick := args[0] != "thorough"
+	name := args[1]
+	bound, _ := strconv.Atoi(args[2])
+	secs, _ := strconv.Atoi(args[3])
+	deadline := time.Now().Add(time.Duration(secs) * time.Second)
 	// one P during the exploration: the controlled scheduler runs one thread at a time anyway, and per-P structures of
 	// the runtime (sync.Pool's private slots) then behave the same in every execution - a buffer one thread returns to
 	// a pool is the buffer the next thread gets
-	prevProcs := runtime.GOMAXPROCS(1)
-	defer runtime.GOMAXPROCS(prevProcs)
-	for _, h := range c17Harnesses(r.Quick()) {
-		if r.OutOfTime() {
-			exhaustive = false
-			break
+	runtime.GOMAXPROCS(1)
+	res := c17Result{Harness: name, Bound: bound}
+	for _, h := range c17Harnesses(quick) {
+		if h.Name != name {
+			continue
 		}
-		b := bound
-		if strings.HasPrefix(h.Name, "fs/three") || strings.HasPrefix(h.Name, "fs/resize") {
-			b = bound - 1
-		}
-		if strings.HasPrefix(h.Name, "fs/two-directories") {
-			b = 1 // a path lookup touches every entry of the directory: ~1000 scheduling points per execution
-		}
-		e := &sched.Explorer{Bound: b, MaxSteps: 20000, Stop: r.OutOfTime}
+		res.Desc = h.Desc
+		e := &sched.Explorer{Bound: bound, MaxSteps: 20000, Stop: func() bool { return time.Now().After(deadline) }}
 		var cur *c17Instance
-		distinct := map[string]bool{}
 		first := true
+		orders := map[string]bool{}
 		e.Explore(func() []func() {
 			cur = h.Make()
 			return cur.bodies
@@ -417,33 +471,97 @@ func C17(r *ev.Run) {
 				// determinism guard: the default schedule replayed must make the same decisions
 				y := sched.Run(h.Make().bodies, x.Choices, 20000)
 				if fmt.Sprint(y.Choices) != fmt.Sprint(x.Choices) || len(y.Points) != len(x.Points) {
-					r.Report("c17|nondeterminism|"+h.Name, "replaying a recorded schedule diverged", c17Case{Harness: h.Name, Schedule: x.Choices})
+					res.Nondet = true
+					res.Schedule = x.Choices
 				}
-				if len(r.Cov) < 64 {
-					r.Sample(map[string]any{"harness": h.Name, "what": h.Desc, "default_schedule_points": len(x.Points)})
-				}
+				res.Default = len(x.Points)
 			}
-			sig, msg := cur.check(x)
-			// observable outcome class: order in which threads finished is visible through the schedule itself
-			distinct[fmt.Sprint(x.Choices)] = true
-			if sig != "" {
-				outcomes["violation"]++
-				r.Report("c17|"+sig, fmt.Sprintf("%s [%s] schedule %v: %s", h.Name, h.Desc, x.Choices, msg), c17Case{Harness: h.Name, Schedule: x.Choices, Threads: h.Desc})
+			res.Steps += int64(x.Steps)
+			if len(orders) < 4096 {
+				orders[x.FinishOrder] = true
+			}
+			if sig, msg := cur.check(x); sig != "" && res.Sig == "" {
+				res.Sig, res.Msg, res.Schedule = sig, msg, append([]int(nil), x.Choices...)
 				e.Capped = true // do not pile up abandoned goroutines behind a failing harness
-			} else {
-				outcomes["ok"]++
 			}
 		})
-		execs += e.Executions
-		states += int64(len(distinct))
-		if e.MaxPoints > maxPoints {
-			maxPoints = e.MaxPoints
+		res.Executions = e.Executions
+		res.Distinct = e.Executions // a DFS over choice sequences never repeats a schedule
+		res.MaxPoints = e.MaxPoints
+		res.Capped = e.Capped && res.Sig == ""
+		for o := range orders {
+			res.Outcomes = append(res.Outcomes, o)
 		}
-		if e.Capped && r.OutOfTime() {
+		sort.Strings(res.Outcomes)
+	}
+	b, _ := json.Marshal(res)
+	fmt.Println(string(b))
+}
+
+func C17(r *ev.Run) {
+	hs := c17Harnesses(r.Quick())
+	results := make([]*c17Result, len(hs))
+	budget := 110
+	if !r.Quick() {
+		budget = 1300
+	}
+	var mu sync.Mutex
+	exhaustive := true
+	parallel(len(hs), r.OutOfTime, func(i int) {
+		h := hs[i]
+		b := c17Bound(h.Name, r.Quick())
+		cmd := exec.Command(vmcPath(), "worker", "c17h", r.Tier, h.Name, strconv.Itoa(b), strconv.Itoa(budget))
+		var errb bytes.Buffer
+		cmd.Stderr = &errb
+		out, err := cmd.Output()
+		var res c17Result
+		if err != nil || json.Unmarshal(bytes.TrimSpace(out), &res) != nil {
+			mu.Lock()
+			r.Report("c17|infra|worker", fmt.Sprintf("exploration worker for %s failed: %v %s", h.Name, err, clipN(errb.String(), 600)), nil)
+			mu.Unlock()
+			return
+		}
+		results[i] = &res
+	})
+	var execs, steps int64
+	maxPoints, maxBound := 0, 0
+	outcomes := map[string]int64{}
+	finishOrders := map[string]bool{}
+	var per []map[string]any
+	for i, res := range results {
+		if res == nil {
+			exhaustive = false
+			continue
+		}
+		execs += res.Executions
+		steps += res.Steps
+		if res.MaxPoints > maxPoints {
+			maxPoints = res.MaxPoints
+		}
+		if res.Bound > maxBound {
+			maxBound = res.Bound
+		}
+		if res.Capped {
 			exhaustive = false
 		}
-		per = append(per, map[string]any{"harness": h.Name, "preemption_bound": b, "executions": e.Executions, "max_scheduling_points": e.MaxPoints})
+		if res.Nondet {
+			r.Report("c17|nondeterminism|"+res.Harness, "replaying a recorded schedule diverged", c17Case{Harness: res.Harness, Schedule: res.Schedule})
+		}
+		if res.Sig != "" {
+			outcomes["violation"]++
+			r.Report("c17|"+res.Sig, fmt.Sprintf("%s [%s] schedule %v: %s", res.Harness, res.Desc, res.Schedule, res.Msg), c17Case{Harness: res.Harness, Schedule: res.Schedule, Threads: res.Desc})
+		}
+		outcomes["ok"] += res.Executions
+		for _, o := range res.Outcomes {
+			finishOrders[res.Harness+":"+o] = true
+		}
+		if i < 14 {
+			r.Sample(map[string]any{"harness": res.Harness, "what": res.Desc, "default_schedule_points": res.Default})
+		}
+		per = append(per, map[string]any{"harness": res.Harness, "preemption_bound": res.Bound, "executions": res.Executions, "scheduling_steps": res.Steps, "max_scheduling_points": res.MaxPoints, "distinct_thread_finish_orders": len(res.Outcomes), "completed": !res.Capped})
 	}
+	states := execs
+	bound := maxBound
 	// auxiliary free-running pass under the race detector (sampling; the exploration above is the deciding step)
 	raceNote := "not run (no -race binary)"
 	if rb := os.Getenv("VERIF_VMC_RACE"); rb != "" {
@@ -491,10 +609,12 @@ func C17(r *ev.Run) {
 		}
 	}
 	r.Set("states", states)
-	r.Set("transitions", execs)
+	r.Set("transitions", steps)
 	r.Set("traces_validated_against_impl", execs)
 	r.Set("schedules_explored", execs)
+	r.Set("distinct_thread_finish_orders", int64(len(finishOrders)))
 	r.Set("preemption_bound", int64(bound))
+	r.Set("preemption_bound_note", "largest bound among the harnesses; the bound each harness completed is listed under harnesses (states = complete executions = distinct schedules, transitions = scheduling steps taken in them)")
 	r.Set("max_scheduling_points_in_one_execution", int64(maxPoints))
 	r.Set("harnesses", per)
 	r.Set("distinct_outcomes", outcomes)
